@@ -3,7 +3,7 @@
 (* generating the transition graph that is replayed into the real code.    *)
 EXTENDS Continuum
 
-CONSTANTS Annot, Times, Labels, MaxUnits, MaxDepth
+CONSTANTS Annot, Times, Labels, MaxUnits, MaxDepth, WithMany
 
 Segs == Times \X Times           \* includes empty (s = e) and reversed (s > e) segments
 
@@ -15,9 +15,9 @@ Next ==
     \/ \E o \in Obj, a \in Annot, sg \in Segs, l \in Labels : Add(o, a, sg[1], sg[2], l)
     \/ \E o \in Obj, a \in Annot, sg \in {x \in Segs : x[1] < x[2]}, l \in Labels : Remove(o, a, sg[1], sg[2], l)
     \* whole pyannote objects: a timeline of two segments, an annotation with two labels on one segment (two tracks)
-    \/ \E o \in Obj, a \in Annot, sgs \in {S \in SUBSET {x \in Segs : x[1] < x[2]} : Cardinality(S) = 2} :
+    \/ \E o \in Obj, a \in Annot, sgs \in {S \in SUBSET {x \in Segs : x[1] < x[2]} : WithMany /\ Cardinality(S) = 2} :
            AddMany("add_timeline", o, a, {<<x[1], x[2], NoLabel>> : x \in sgs})
-    \/ \E o \in Obj, a \in Annot, sg \in {x \in Segs : x[1] < x[2]} :
+    \/ \E o \in Obj, a \in Annot, sg \in {x \in Segs : WithMany /\ x[1] < x[2]} :
            AddMany("add_annotation", o, a, {<<sg[1], sg[2], l>> : l \in Labels \ {NoLabel}})
     \/ \E o, o2 \in Obj : Copy(o, o2) \/ CopyFlush(o, o2) \/ MergeInPlace(o, o2)
     \/ \E o, o2, o3 \in Obj : MergeNew("merge_new", o, o2, o3) \/ MergeNew("plus", o, o2, o3)
